@@ -150,7 +150,11 @@ struct Ctx {
 	template<typename T, typename... A> T *make(A &&... a) {
 		void *m = aligned_alloc(alignof(T) < 16 ? 16 : alignof(T), (sizeof(T) + 15) & ~size_t(15));
 		arena.push_back({m, nullptr});
-		return new (m) T{std::forward<A>(a)...};
+		// Without arguments the object is default-initialised (`T x;`, not `T x{}`) in storage that holds 0xA5 bytes: a member that the
+		// default constructor forgets is garbage, as it is in a recycled slab object or a dirty stack frame, and not conveniently zero.
+		memset(m, 0xA5, (sizeof(T) + 15) & ~size_t(15));
+		if constexpr(sizeof...(A) == 0) return new (m) T;
+		else return new (m) T{std::forward<A>(a)...};
 	}
 	void *raw(size_t n, size_t align = 16) {
 		if(align < 16) align = 16;
